@@ -549,13 +549,17 @@ def run(ck):
     # crystals
     cases = []
     from onsager import crystal as _crystal
+    rot_failed = []
     def rotated(label, crys, kind):
         """the same crystal in a rotated Cartesian frame (lattice -> Q lattice): a valid input with the same exact data"""
         Q = random_rotation(rng, crys.dim, kind)
         try:
             c2 = _crystal.Crystal(Q @ crys.lattice, [[np.array(u) for u in lst] for lst in crys.basis])
         except Exception as e:
-            ck.violation("%s: Crystal() failed on the rotated lattice: %s: %s" % (label, type(e).__name__, e), {"crystal": repr(crys), "Q": Q.tolist()}, key="c20-exception")
+            # constructing the crystal is not part of C20 (cell reduction is C19): counted and noted, not a C20 verdict
+            rot_failed.append(label)
+            ck.note("Crystal() failed on a rotated lattice (%s: %s) for %s, Q=%s -- outside C20 (cell reduction, C19); skipped" %
+                    (type(e).__name__, str(e)[:60], repr(crys)[:200], np.round(Q, 12).tolist()))
             return None
         ex2 = sg.Exact(c2)
         return (label + "|rot-" + kind, c2, ex2) if ex2.ok else None
@@ -573,6 +577,7 @@ def run(ck):
                 cases.append(crystal_case(ck, rng, r[0], r[1], r[2])); nrotc += 1; continue
         cases.append(crystal_case(ck, rng, label, crys, ex))
     ck.extra["rotated_crystals"] = nrotc
+    ck.extra["skipped_rotated_constructor_failed"] = len(rot_failed)
     try:
         scodes = run_terms(ck, "sites", [c["site_term"] for c in cases], fn="check_sites", chunk=12, imports=SITE_IMPORTS)
         bterms = [t for c in cases for t in c["basis_terms"]]
